@@ -98,7 +98,18 @@ def le_trim(n):
 @act
 def ScriptSer(inp, tab, ev):
     from btc_hd_wallet.script import Script
-    sc = Script(cmds_to_py(inp["cmds"]))
+    cmds = cmds_to_py(inp["cmds"])
+    if inp.get("built_in_steps") is not None:
+        # the script object is built incrementally: serialised after the first k commands, then the rest is added to
+        # its public command list in place; what is judged is the serialisation of the FINAL script
+        k = inp["built_in_steps"]
+        sc = Script(cmds[:k])
+        call(sc.raw_serialize)
+        call(sc.serialize)
+        for c in cmds[k:]:
+            sc.cmds.append(c)
+    else:
+        sc = Script(cmds)
     ok, v = call(sc.raw_serialize if inp["raw"] else sc.serialize)
     ev["res"] = res_of(ok, v, B)
 
@@ -546,6 +557,9 @@ def ExtSer(inp, tab, ev):
     ver = int.from_bytes(bytes(inp["version"]), "big")
     tab.hash256(W.payload(rn, ver, inp["kind"] == "prv"))
     n = py_node(inp["node"])
+    if inp.get("other_kind_first"):
+        # the SAME node object was asked for the other kind of key with the same explicit version number first
+        call(n.extended_public_key, ver) if inp["kind"] == "prv" else call(n.extended_private_key, ver)
     if inp["kind"] == "prv":
         ok, v = call(n.extended_private_key, ver)
     else:
@@ -672,6 +686,12 @@ def PrivCtor(inp, tab, ev):
     from btc_hd_wallet.keys import PrivateKey
     v = bytes(inp["v"])
     form = inp["form"]
+    if inp.get("warm"):
+        # the valid 32-byte key with the same NUMERIC value (and its int form) were used earlier in this process
+        n_ = int.from_bytes(v, "big")
+        if 0 < n_ < 2 ** 256:
+            call(lambda: PrivateKey(n_.to_bytes(32, "big")).K.sec())
+            call(lambda: PrivateKey(n_).K.sec())
     if form == "bytes":
         f = lambda: PrivateKey(v)
     elif form == "parse":
@@ -1097,6 +1117,12 @@ def Watch(inp, tab, ev):
         probe("bip85_data", lambda: wl.bip85_data())
         probe("generate", lambda: wl.generate(0, (0, 1)))
         probe("master-private_key", lambda: wl.master.private_key)
+
+        def gen_skip(skip):
+            g = wl.address_generator(n)
+            next(g)
+            return g.send(skip)
+        probe("address_generator-send-2^31", lambda: gen_skip(2 ** 31))        # lands on a hardened index
         # path STRINGS with a hardened level, asked of the watch-only wallet: the absolute path the full wallet prints
         # for this node (and relatives with another purpose / coin / account), short ones, both root marks - every
         # one of them needs a hardened derivation from public data, so none may be answered with a node
@@ -1381,6 +1407,19 @@ def Generate(inp, tab, ev):
 
 
 @act
+def GenerateOrder(inp, tab, ev):
+    """a LONG interval in one call: only the row paths (count, order, index) are projected"""
+    st, en = _iv(inp)
+
+    def go():
+        w = _paper_wallet(inp)
+        data = w.generate(account=inp["account"], interval=(st, en))
+        return {b: [T(str(row[0])) for row in data[b.upper()]["groups"]] for b in SLIP}
+    ok, v = call(go)
+    ev["res"] = res_of(ok, v)
+
+
+@act
 def Wasabi(inp, tab, ev):
     import json as _json
     from . import refwallet as W
@@ -1448,6 +1487,8 @@ def Paranoia(inp, tab, ev):
     from btc_hd_wallet.__main__ import paranoia_mode
     from btc_hd_wallet.bip39_wordlist import word_list
 
+    cli_stderr = []
+
     def cli_filtered():
         """the same request through the command line: --paranoia ... printed to stdout, or saved with --file"""
         import json as _json
@@ -1468,6 +1509,7 @@ def Paranoia(inp, tab, ev):
             code, out, err, opened = clirun.run_inprocess(args, d)
             if code != 0:
                 raise RuntimeError("command line refused the request (exit %r): %s" % (code, err[-200:]))
+            cli_stderr.append(err)
             text = out
             if inp["via"] == "cli-file":
                 with open(os.path.join(d, "out.json")) as f:
@@ -1489,6 +1531,8 @@ def Paranoia(inp, tab, ev):
             filt = paranoia_mode(data=data)
         full_l = tree_leaves(data)
         filt_l = tree_leaves(filt)
+        if cli_stderr and cli_stderr[0].strip():
+            filt_l.append(("/stderr", cli_stderr[0]))       # what the command writes to standard error is output too
         ev["full"] = [{"ptr": T(p), "role": leaf_role(p), "s": T(s)} for p, s in full_l]
         ev["filt"] = [{"ptr": T(p), "role": leaf_role(p), "s": T(s)} for p, s in filt_l]
         for p, s in full_l + filt_l:
